@@ -257,6 +257,16 @@ func c04InitialVerify(c *Ctx, k *core) {
 // errDerives: v (an error value) derives from src, possibly through
 // fmt.Errorf(..., src) / MakeInterface / wrapper struct literals.
 func errDerives(v ssa.Value, src func(ssa.Value) bool) bool {
+	return errDerivesOpt(v, src, nil)
+}
+
+// errDerivesNonNil: v, used at block `at`, derives from src; a phi on the way that is known non-nil at `at` (the
+// joined error result of a folded helper, tested before the use) cannot hold the nil constants it joins in.
+func errDerivesNonNil(v ssa.Value, at *ssa.BasicBlock, src func(ssa.Value) bool) bool {
+	return errDerivesOpt(v, src, at)
+}
+
+func errDerivesOpt(v ssa.Value, src func(ssa.Value) bool, at *ssa.BasicBlock) bool {
 	seen := map[ssa.Value]bool{}
 	var rec func(v ssa.Value) bool
 	rec = func(v ssa.Value) bool {
@@ -275,12 +285,17 @@ func errDerives(v ssa.Value, src func(ssa.Value) bool) bool {
 		case *ssa.ChangeType:
 			return rec(x.X)
 		case *ssa.Phi:
+			n := 0
 			for _, e := range x.Edges {
+				if at != nil && isNilConst(e) && knownNil(at, x, false) {
+					continue
+				}
+				n++
 				if !rec(e) {
 					return false
 				}
 			}
-			return len(x.Edges) > 0
+			return n > 0
 		case *ssa.Call:
 			if calleeFullName(x) == "fmt.Errorf" {
 				// variadic args are packed into a slice alloc: look at stores into it
@@ -478,7 +493,7 @@ func c04StoreFn(c *Ctx, k *core, f *ssa.Function) {
 		what string
 		errV ssa.Value
 	}
-	for _, rj := range []reject{{"compose-error", composeErr}, {"verify-error", vi}} {
+	for _, rj := range []reject{{"compose-error", composeErr}, {"verify-error", errCarrier(vi)}} {
 		// the If testing errV against nil
 		var iff *ssa.If
 		for _, r := range *rj.errV.Referrers() {
@@ -849,10 +864,8 @@ func c04FromEvent(v ssa.Value) bool {
 // goes up the dominator tree of the call while the controlling conditions consist only of atoms the
 // rule's namer knows (flags and Params fields), so that a guard written at the call site is included.
 func c04GuardFrom(pb *predBuilder, vs verifySite) *ssa.BasicBlock {
-	if vs.wrap == nil {
-		return vs.from()
-	}
-	b := vs.Call.Block()
+	// the site's own block, extended upwards over enclosing tests of the known flags only (`if !skipVerify { if vf, ok := ...`)
+	b := vs.from()
 	for {
 		id := b.Idom()
 		if id == nil || len(b.Preds) != 1 || b.Preds[0] != id {
